@@ -113,17 +113,18 @@ func (e *Exec) sync(t *Thread, o *Obj, kind uint64) {
 
 // Thread is one controlled goroutine.
 type Thread struct {
-	ID     string
-	idv    []int
-	nspawn int
-	Name   string
-	wake   chan struct{}
-	pend   *Pending
-	done   bool
-	chain  Hash
-	idHash Hash
-	idx    int
-	vc     []uint32
+	ID      string
+	idv     []int
+	nspawn  int
+	Name    string
+	wake    chan struct{}
+	pend    *Pending
+	done    bool
+	chain   Hash
+	idHash  Hash
+	idx     int
+	vc      []uint32
+	lastRun int
 	// select / channel hand-off result storage
 	Sel SelResult
 	// Daemon threads do not count for anything special; informational.
@@ -323,6 +324,7 @@ func (e *Exec) newThread(parent *Thread, name string, fn func()) *Thread {
 	}
 	t.tick()
 	t.pend = &Pending{Kind: "start", Since: e.Steps}
+	t.lastRun = e.Steps
 	// insert keeping threads sorted by path
 	i := sort.Search(len(e.threads), func(i int) bool { return pathLess(t.idv, e.threads[i].idv) })
 	e.threads = append(e.threads, nil)
@@ -572,6 +574,15 @@ func (e *Exec) schedule(t *Thread) {
 				en = append(en, th)
 			}
 		}
+		if BoundAll && len(en) > 2 {
+			// round-robin default order (delay bounding): the thread that has waited longest goes first;
+			// a thread passed over by a deviation moves to the back of the queue (below)
+			rest := en
+			if tEnabled {
+				rest = en[1:]
+			}
+			sort.SliceStable(rest, func(i, j int) bool { return rest[i].lastRun < rest[j].lastRun })
+		}
 		nThreads := len(en)
 		clockOK := e.clk.pending()
 		if clockOK {
@@ -614,6 +625,12 @@ func (e *Exec) schedule(t *Thread) {
 				}
 			}
 			p.Key = e.fingerprint(t).Mix(uint64(len(en)))
+			if BoundAll {
+				// the queue order is scheduler state: it decides the default continuation
+				for _, th := range en {
+					p.Key = p.Key.Mix(th.idHash.A)
+				}
+			}
 			if e.Trace {
 				var sb strings.Builder
 				for i, th := range en {
@@ -666,6 +683,15 @@ func (e *Exec) schedule(t *Thread) {
 		}
 		if next == t {
 			return
+		}
+		if BoundAll {
+			// threads passed over move to the back of the round-robin queue, and so does the one switched away from
+			for i := 0; i < choice; i++ {
+				if en[i] != e.clockThread {
+					en[i].lastRun = e.Steps
+				}
+			}
+			t.lastRun = e.Steps
 		}
 		e.running = next
 		next.wake <- struct{}{}
